@@ -4,6 +4,7 @@ Only the part of C16 that is visible in the shape of `get_route` and its helpers
 from engine import *
 import ordimpls
 import provenance
+import guards
 import mutations
 import accessors
 import re as _re
@@ -775,3 +776,4 @@ RULES.append(('16.t', 'identity comparisons: every reviewed (function, identity 
 RULES.append(('16.R', 'state resets: every reviewed constant write to persistent state (flag = true / false, counter = 0, pending slot = None) of a function is still made (rules/provenance.py)', lambda F: provenance.flags_for_property(F, 'C16', '16.R')))
 RULES.append(('16.M', 'collection mutations: every reviewed (function, stored collection, mutator class: add / remove / filter / empty / swap / order) triple is still present - an entry that is no longer removed, inserted or drained on one path (rules/mutations.py)', lambda F: mutations.for_property(F, 'C16', '16.M')))
 RULES.append(('16.A', 'enum accessors agree across sibling variants: an accessor that returns the payload field `x` for one variant returns it for every variant whose payload carries a field of that name and type (a variant moved to the `=> None` arm) - rules/accessors.py', lambda F: accessors.for_property(F, 'C16', '16.A')))
+RULES.append(('16.G', 'guard census: no reviewed call of a workspace function and no reviewed mutation of a stored collection gained a controlling branch condition (an added `&& cond`, early return / continue, more specific match arm in front of an act); counts per call site, name free (rules/guards.py)', lambda F: guards.for_property(F, 'C16', '16.G')))
